@@ -196,6 +196,9 @@ class kLeastAbsErrorsCycles(walkmodel.AbstractWalkModelDiGraph):
         # If k is not specified, we set k to the edge width of the graph
         if self.k is None:
             self.k = self.G.get_width(list(self.edges_to_ignore))
+        if not isinstance(self.k, int) or self.k <= 0:
+            utils.logger.error(f"{__name__}: k must be a positive integer, not {self.k}")
+            raise ValueError(f"k must be a positive integer, not {self.k}")
         self.optimization_options = dict(optimization_options) if optimization_options else {}        
 
         self.subset_constraints_coverage = subset_constraints_coverage
